@@ -196,12 +196,28 @@ impl TypeCollector {
     ) -> Vec<EventContext> {
         let type_resolver = analyzer.get_type_resolver();
 
+        // One listener per distinct event name, however many places emit it
+        let mut seen_events = std::collections::HashSet::new();
+        // Different event names may derive the same function name (user-login / user_login)
+        let mut used_function_names: HashMap<String, usize> = HashMap::new();
+
         events
             .iter()
+            .filter(|event| seen_events.insert(event.event_name.clone()))
             .map(|event| {
-                EventContext::new(config).from_event_info(event, visitor, &|rust_type: &str| {
-                    type_resolver.borrow_mut().parse_type_structure(rust_type)
-                })
+                let mut context = EventContext::new(config).from_event_info(
+                    event,
+                    visitor,
+                    &|rust_type: &str| type_resolver.borrow_mut().parse_type_structure(rust_type),
+                );
+                let uses = used_function_names
+                    .entry(context.ts_function_name.clone())
+                    .or_insert(0);
+                *uses += 1;
+                if *uses > 1 {
+                    context.ts_function_name = format!("{}{}", context.ts_function_name, uses);
+                }
+                context
             })
             .collect()
     }
